@@ -247,11 +247,25 @@ fn iter_run(kind: &str, ps: Pairs<'_, u8>, ops: &str) -> Value {
     macro_rules! go {
         ($it:expr, $conv:expr, $peek:expr) => {{
             let mut it = $it;
-            steps.push(json!({"op": "-", "ret": [], "len": it.len(), "hint": [it.size_hint().0, it.size_hint().1], "peek": $peek(&it)}));
+            // after every step also: a CLONE of the iterator must report the same length, and stepping a clone past the
+            // end (nth / nth_back with the number of items left, and with two more) must give nothing and leave an empty iterator
+            macro_rules! side {
+                ($i:expr) => {{
+                    let c = $i.clone();
+                    let (mut a, mut b) = ($i.clone(), $i.clone());
+                    let k = $i.len();
+                    let (mut a2, mut b2) = ($i.clone(), $i.clone());
+                    let none = a.nth(k).is_none() && b.nth_back(k).is_none() && a2.nth(k + 2).is_none() && b2.nth_back(k + 2).is_none()
+                        && a2.len() == 0 && b2.len() == 0 && a2.size_hint() == (0, Some(0)) && b2.size_hint() == (0, Some(0));
+                    let last_ok = k == 0 || ($i.clone().nth(k - 1).is_some() && $i.clone().nth_back(k - 1).is_some());
+                    json!({"clen": c.len(), "chint": [c.size_hint().0, c.size_hint().1], "over": [a.len(), b.len()], "over_none": none && last_ok})
+                }};
+            }
+            steps.push(json!({"op": "-", "ret": [], "len": it.len(), "hint": [it.size_hint().0, it.size_hint().1], "peek": $peek(&it), "side": side!(it)}));
             for o in ops.chars() {
                 let ret = if o == 'N' { it.next() } else { it.next_back() };
                 steps.push(json!({"op": o.to_string(), "ret": opt(ret, $conv), "len": it.len(),
-                                  "hint": [it.size_hint().0, it.size_hint().1], "peek": $peek(&it)}));
+                                  "hint": [it.size_hint().0, it.size_hint().1], "peek": $peek(&it), "side": side!(it)}));
             }
         }};
     }
